@@ -68,8 +68,10 @@ CLAIMED = {
          "correspondence in FFN0 and FFNS cells; the remaining channels are explored on real FFNS/FFN0 run pairs",
          "Proof: for CC, NC parity-conserving, intrinsic and 'missing' channels, any couplings, nf, heavy quark and order, the FFN0 kernels carry exactly the parton weights, nf and heavy-quark "
          "mass of the FFNS ones; for the NLO gluon channel of CC F2, FL, F3 the asymptotic coefficient function is the limit of the massive one with the explicit remainder "
-         "|massive(z; lambda) - asy(z; ln(lambda/(1-lambda)))| <= (1-lambda)(A(z) + B |ln(1-lambda)|), 1-lambda = m2/(Q2+m2), every z in (0,1), lambda in [1/2,1). PARTIAL: the quark channels "
-         "(plus distributions with a lambda-dependent singular part) and all NC channels (LeProHQ, third party) are tested on real runs at Q2/m2 = 1e2, 1e4, 1e6 against a power-law "
+         "|massive(z; lambda) - asy(z; ln(lambda/(1-lambda)))| <= (1-lambda)(A(z) + B |ln(1-lambda)|), 1-lambda = m2/(Q2+m2), every z in (0,1), lambda in [1/2,1); for the LO quark channel the massive contribution tends to the asymptotic one like 1-lambda for any bounded Lipschitz PDF; for the NLO "
+         "quark channel of CC F2, FL, F3 the regular and singular parts converge pointwise in z to the massless NLO quark coefficient function, remainder (1-lambda) A(z). "
+         "PARTIAL: the NLO quark channel as a plus distribution against a PDF (A(z) is not integrable at z = 1; the local part contains dilogarithms) "
+         "and all NC channels (LeProHQ, third party) are tested on real runs at Q2/m2 = 1e2, 1e4, 1e6 against a power-law "
          "envelope, not proved. NC F2/FL FFN0 cannot run here (adani). One defect fixed (0513cfd9), one open finding (NNLO non-singlet 'missing' channel of F3/g1).",
          "Trusted: Coq kernel+vm_compute, reals axioms as printed; tools/pyinst.py (translator, validated numerically against real instances by corr/instk.py); tools/corr/wlayer.py; the patrol is a test.", "0.3 / 4 C08"),
  "C09": ("Coq theorems over the rationals (lra/nra/field) on a hand-written model of the threshold test, the decorator, the closure shape and the slow-rescaling point; tied by "
@@ -109,8 +111,8 @@ CLAIMED = {
  "C16": ("exhaustive evaluation inside Coq (vm_compute) of a hand-written outcome model (validation, TMC availability, module/class and dictionary look-ups of the Combiner model "
          "over the regenerated inventory) on the complete discrete lattice, sharded per kind; model tied by differential correspondence on real run_yadism calls",
          "Proof over the complete lattice of 25920 cells (6 kinds x 5 heavynesses x EM/NC/CC x 5 schemes with FONLL parts x NfFF 3..6 x PTO 0..3 x TMC off/on): no cell ends in an "
-         "internal look-up failure except the documented gap (polarised g1 at PTO 3, a recorded known finding); malformed kinematics and TMC for kinds without formulas are rejected "
-         "in every configuration. Four defects found this way were fixed (7fbf7d5a, 0955516d, 9b5f9d9a, 465a87b3). Sampled real runs compare the outcome class and check finiteness.",
+         "internal look-up failure (no documented gap is left); malformed kinematics and TMC for kinds without formulas are rejected "
+         "in every configuration. Five defects found this way were fixed (7fbf7d5a, 0955516d, 9b5f9d9a, 465a87b3, 3f1d4534). Sampled real runs compare the outcome class and check finiteness.",
          "Trusted: Coq kernel+vm_compute; tools/tables.py; harnesses; the model is tied by sampled correspondence; NaN/inf from third-party numerics only checked on samples; "
          "argument-vector reads are C18; asy NC F2/FL cells cannot run here (adani).", "4 C16"),
  "C06": ("Coq theorems (case analysis, Qle reasoning) on a hand-written model of update_fns / Atlas walls / nf_default over rationals + infinity; "
